@@ -95,3 +95,11 @@ reg("C18",
     explanation="per return class (value, optional, list, set, map, unit, binary, optional binary): valid documents with unknown fields, every truncation, trailers, doubled documents; statuses 200/201/204; 11 Content-Type situations; every stream history within the deviation bound plus uniform chunkings; decode_*_response and ConjureResponseDeserializer; blocking and async verdicts must agree",
     level_text="Fault enumeration over environment answers: every history of the response stream with at most k deviations (including a stream error at every position) is executed on the real decoders; a value may only come from a 204 (empty value) or from a complete document under the requested Content-Type.",
     level_note="Trusted: conjure-serde's client deserializer (client_from_slice) as the reference for 'one well-formed document of the return type'. Content-Types that are the requested type in another spelling are treated as unclear (error or the correct value accepted). Generated and macro client methods end-to-end are covered by the loopback part when built.")
+
+reg("C04",
+    packages=["httploop"], bin="httploop", level="exploration", engine="E3b httploop",
+    technique="bounded exhaustive enumeration of argument and return values over per-position alphabets through the real generated clients and endpoints (blocking and async) joined by a loopback transport, with an identity oracle (handler invoked once with equal arguments; client gets the handler's value)",
+    design_ref="DESIGN.md §3 C04",
+    explanation="a 'universal' service (every parameter kind x type class, header and cookie auth, optional/alias/collection/union/any/binary bodies and returns, size-limited body, context) is generated from ir/http.json at build time; every ASCII code point, UTF-8 boundary and reserved-character pair in every string position, pairs of positions, one-hot scalar alphabets, collections of 0..3, under three body chunkings; the router binds raw path segments as the PathParams contract documents",
+    level_text="Exhaustive exploration over per-position alphabets with an identity oracle, executed on the generated code of the current tree (regenerated by build.rs) and the runtime crates; both flavours.",
+    level_note="Trusted: the loopback router (60 lines; routing is outside the repository); conjure-serde JSON text as the canonical rendering on both sides. Macro-derived clients/endpoints with custom encoders are covered by the macro part of this engine when built; Smile negotiation is exercised by C11 and the Smile replay.")
